@@ -98,10 +98,10 @@ package obfs4
 //@   requires txInv(conn) && distOK(conn) && wdInv(conn.lenDist) && (conn.iatMode != 0 ==> wdInv(conn.iatDist))
 //@   requires outside(conn.Conn, conn) && outside(conn.Conn, conn.encoder) && outside(conn.Conn, conn.encoder.drbg) && outside(conn.Conn, conn.encoder.drbg.sip)
 //@   modifies conn.encoder.nonce.counter, conn.encoder.drbg.sip.absorbed, conn.encoder.drbg.ofb, conn.Conn.wr, conn.Conn.nwrites
-//@   loop 1 invariant txInv(conn) && 0 <= n && n + len(chopBuf.content) == len(b) && chopBuf != nil
+//@   loop 1 invariant txInv(conn) && 0 <= n && n + len(chopBuf.content) == len(b) && chopBuf != nil && wdInv(conn.lenDist) && (conn.iatMode != 0 ==> wdInv(conn.iatDist))
 //@   loop 1 invariant [C09:whole_frames] len(frameBuf.content) >= 0
 //@   loop 1 decreases len(chopBuf.content)
-//@   loop 2 invariant txInv(conn) && n == len(b)
+//@   loop 2 invariant txInv(conn) && n == len(b) && wdInv(conn.lenDist) && (conn.iatMode != 0 ==> wdInv(conn.iatDist))
 //@   assert_at (net.Conn).Write [C09:write_le_mss] conn.iatMode != 0 ==> 1 <= len(arg1) && len(arg1) <= 1448
 //@   ensures [C01:all_or_error] err == nil ==> n == len(b)
 //@   ensures txInv(conn)
